@@ -183,7 +183,7 @@ def decide_site(out, oid, ex, body, fn_name, template, key, what, pre=None):
     p, m = reach
     params = template(m)
     confirmed, rep = native.scenario(out, "analyze", params)
-    panicked = any(isinstance(v, dict) and v.get("panicked") for v in rep.values())
+    panicked = any(isinstance(v, dict) and v.get("panicked") for k_, v in rep.items() if k_ != "_scenario")
     if panicked:
         out.obligation(oid, "mirsmt", "violated", time.time() - t0, witness=True, note=what, replay=rep, program=params)
         out.violation(C.Violation(key=key, what="%s — panics through analyze() on %s" % (what, params.get("hex")),
